@@ -113,6 +113,7 @@ type HookSpec struct {
 //	sample  l.Sample(...)  (Sampler: all | none | basicN)
 //	output  l.Output(new buffer)
 //	update  l.UpdateContext(Ops)  (only directly after a with step)
+//	rehook  *l = l.Hook(hooks...)  (the logger variable is reassigned in place, as update does for the context)
 //	updatedefault  zerolog.Ctx(context.Background()).UpdateContext(Ops); the node is a copy of that logger afterwards
 type Step struct {
 	Kind    string     `json:"kind"`
